@@ -313,7 +313,9 @@ example : csvUnambiguousB {} [demoClash, demoClash] = false ∧
      | .ok b => b.seqs == expected {} [demoClash, demoClash]
      | _ => false) = false := by decide +kernel
 
-/-- **FIT → CSV → FIT gives the messages back, file by file** — raw mode and the default scaled mode, with and without
+/-- (Earlier, narrower statement — subsumed by `C19_roundtrip`; kept because its hypotheses are semantic (`GoodMesg`) rather
+than the decidable scope, and its conclusion is the model's own `expMesg`.)
+**FIT → CSV → FIT gives the messages back, file by file** — raw mode and the default scaled mode, with and without
 the verbose option, any number of files, messages and fields: for chains of files that start with their only file_id
 and whose messages (`GoodMesg`) have no developer fields and consist of known fields without sub-field substitution
 holding what the decoder produces for their base type (scalar or array; scaled fields: integer scalars of at most 32
@@ -341,14 +343,15 @@ example : (match fromCsvPre Arith.so (toCsv { verbose := true } [demoFile]) with
     | .ok b => b.seqs == [demoFile] && b.seq == 1
     | _ => false) = true := by decide +kernel
 
-/-- **Chained inputs come back as the same number of sequences** (same class) -/
+/-- **Chained inputs come back as the same number of sequences** (same class; subsumed by `C19_sequences`) -/
 theorem C19_sequences_partial (o : Opts) (hdeg : o.degrees = false) (files : List (List Message)) (hne : files ≠ [])
     (hshape : ∀ f ∈ files, FileShape f) (hgood : ∀ f ∈ files, ∀ m ∈ f, GoodMesg o m) :
     ∃ b, fromCsvPre Arith.so (toCsv o files) = .ok b ∧ b.seq = files.length ∧ b.seqs.length = files.length := by
   refine ⟨_, roundtrip_so o hdeg files hne hshape hgood, rfl, ?_⟩
   simp
 
-/-- the earlier statement for plain scalar messages, for ANY arithmetic (nothing scaled is written) -/
+/-- the earlier statement for plain scalar messages, for ANY arithmetic (nothing scaled is written; subsumed by
+`C19_roundtrip` for `Arith.so`) -/
 theorem C19_raw_roundtrip_partial (ar : Arith) (o : Opts) (hdeg : o.degrees = false) (files : List (List Message))
     (hne : files ≠ []) (hshape : ∀ f ∈ files, FileShape f) (hplain : ∀ f ∈ files, ∀ m ∈ f, PlainMesg o m) :
     fromCsvPre ar (toCsv o files) = .ok ⟨files.map (·.map normMesg), files.length⟩ :=
